@@ -77,7 +77,9 @@ structure Cfg where
   win : Win := ⟨CkbVerif.Gen.Rules.W_CLOSE, CkbVerif.Gen.Rules.W_FAR⟩
   /-- `ALLOWED_FUTURE_BLOCKTIME` (ms) -/
   future : Nat := CkbVerif.Gen.Rules.ALLOWED_FUTURE_BLOCKTIME
-  /-- `rfc0044_active(parent.epoch().number())`: chain-root extension required -/
+  /-- the local `mmr_active` of `BlockExtensionVerifier::verify` (chain-root extension required).
+  Since round 6 it is not a free parameter of a verification: `contextualCheck` sets it, for each
+  block, to `rfc0044_active(parent.epoch().number())` (`Cfg.forParentEpoch`) -/
   mmrActive : Bool := true
   extMax : Nat := CkbVerif.Gen.Rules.EXTENSION_MAX_BYTES
   extMinRoot : Nat := CkbVerif.Gen.Rules.EXTENSION_MIN_ROOT_BYTES
@@ -87,7 +89,30 @@ structure Cfg where
   in-process callers can hand over two bodies under one header hash (every RPC / P2P entry point
   builds its `BlockView` with `into_view()`, which re-derives the header's roots from the body). -/
   redeliveryGuard : Bool := false
+  /-- `rfc0044_active_epoch` of `Consensus::rfc0044_active`: selected by the consensus id
+  (`softfork::mainnet::RFC0044_ACTIVE_EPOCH` for `"ckb"`, `softfork::testnet::…` for `"ckb_testnet"`,
+  `0` for every other id — `rfc0044EpochOf`) -/
+  rfc0044Epoch : Nat := CkbVerif.Gen.Rules.RFC0044_ACTIVE_EPOCH_OTHER
 deriving Repr
+
+/-- the three arms of `match self.id.as_str()` in `Consensus::rfc0044_active` -/
+inductive ChainId
+  | mainnet | testnet | other
+deriving DecidableEq, Repr
+
+/-- `rfc0044_active_epoch` by consensus id (constants regenerated from the source) -/
+def rfc0044EpochOf : ChainId → Nat
+  | .mainnet => CkbVerif.Gen.Rules.RFC0044_ACTIVE_EPOCH_MAINNET
+  | .testnet => CkbVerif.Gen.Rules.RFC0044_ACTIVE_EPOCH_TESTNET
+  | .other => CkbVerif.Gen.Rules.RFC0044_ACTIVE_EPOCH_OTHER
+
+/-- `Consensus::rfc0044_active(target)`: `target >= rfc0044_active_epoch` -/
+def Cfg.rfc0044Active (c : Cfg) (target : Nat) : Bool := decide (c.rfc0044Epoch ≤ target)
+
+/-- the configuration as the hardfork-conditional verifiers see it for a child of a block whose
+header says epoch number `parentEpoch`: `let mmr_active = consensus.rfc0044_active(self.parent.epoch().number())` -/
+def Cfg.forParentEpoch (c : Cfg) (parentEpoch : Nat) : Cfg :=
+  { c with mmrActive := c.rfc0044Active parentEpoch }
 
 /-- `finalization_delay_length` = farthest + 1 -/
 def Cfg.finDelay (c : Cfg) : Nat := c.win.far + CkbVerif.Gen.Rules.FINALIZATION_DELAY_EXTRA
@@ -251,6 +276,8 @@ structure Cx where
   uncleNum : Nat → Option Nat
   /-- union proposal ids of main-chain block `n`, for `n = 0 ..= parent` -/
   chain : List Ids
+  /-- `parent.epoch().number()` of the parent HEADER: the argument of `rfc0044_active` -/
+  parentEpochNumber : Nat := 0
 
 /-- `UncleProvider::descendant` -/
 def Cx.descendant (cx : Cx) (u : Uncle) : Bool :=
@@ -314,7 +341,8 @@ def rewardCheck (cfg : Cfg) (cx : Cx) (b : Blk) : Option Err :=
     if !b.cbLockEq then some .rewardTarget else
     none
 
-/-- `BlockExtensionVerifier::verify` -/
+/-- `BlockExtensionVerifier::verify`, after `let mmr_active = …` (`cfg.mmrActive`; see
+`Cfg.forParentEpoch` for the value `contextualCheck` passes) -/
 def extensionCheck (cfg : Cfg) (b : Blk) : Option Err :=
   match b.extraFields with
   | 0 => if cfg.mmrActive then some .noExtension else
@@ -345,7 +373,7 @@ def contextualCheck (cfg : Cfg) (cx : Cx) (b : Blk) : Option Err :=
   match rewardCheck cfg cx b with
   | some e => some e
   | none =>
-  match extensionCheck cfg b with
+  match extensionCheck (cfg.forParentEpoch cx.parentEpochNumber) b with
   | some e => some e
   | none =>
   if !b.txsOk then some .txs else
@@ -399,7 +427,8 @@ def cxOf (st : List Blk) (p : Blk) : Cx :=
   { parentNumber := p.number
     mainNum := fun h => (anc.find? (fun a => a.id == h)).map (·.number)
     uncleNum := fun h => ((anc.flatMap (·.uncles)).find? (fun u => u.id == h)).map (·.number)
-    chain := anc.reverse.map (·.unionProposals) }
+    chain := anc.reverse.map (·.unionProposals)
+    parentEpochNumber := p.epoch.number }
 
 /-- total difficulty of the chain ending in block `id` (genesis excluded: equal on every chain) -/
 def totalWork (st : List Blk) (b : Blk) : Nat :=
